@@ -399,6 +399,107 @@ pub fn suite(kind: &'static str, prop: &str, tier: &str, seed: u64) -> Report {
     );
     rep
 }
+
+// ---------------------------------------------------------------- solver logs (C07)
+/// renders a log: status line, value lines broken after every `split` literals, `filler` lines at every line boundary chosen by `mask`
+fn render_log(status: &str, lits: &[i32], split: usize, filler: &[&str], mask: u32, eol: &str, final_eol: bool, sep: &str) -> Vec<u8> {
+    let mut lines: Vec<String> = vec![];
+    lines.push(format!("s{}{}", sep, status));
+    if status == "SATISFIABLE" {
+        let mut toks: Vec<String> = lits.iter().map(|l| l.to_string()).collect();
+        toks.push("0".into());
+        let n = if split == 0 { toks.len() } else { split };
+        for ch in toks.chunks(n) {
+            lines.push(format!("v{}{}", sep, ch.join(sep)));
+        }
+    }
+    let mut out = String::new();
+    for (i, l) in lines.iter().enumerate() {
+        if mask >> i & 1 == 1 {
+            for f in filler {
+                out += f;
+                out += eol;
+            }
+        }
+        out += l;
+        if i + 1 < lines.len() || final_eol {
+            out += eol;
+        }
+    }
+    if final_eol && mask >> lines.len() & 1 == 1 {
+        for f in filler {
+            out += f;
+            out += eol;
+        }
+    }
+    out.into_bytes()
+}
+pub fn satlog_suite(prop: &str, tier: &str, seed: u64) -> Report {
+    let mut rep = Report::new();
+    if !(prop == "all" || prop == "C07") {
+        return rep;
+    }
+    let strict = FORMATS.iter().find(|f| f.name == "satlog").unwrap();
+    let ign = FORMATS.iter().find(|f| f.name == "satlog_ign").unwrap();
+    let scheds = [ONE_SHOT, Sched { chunk: 1, mode: Mode::Step(1), fail_at: None, interrupt: 0 }, Sched { chunk: 16384, mode: Mode::Lines, fail_at: None, interrupt: 0 }];
+    let cases: [(&str, Vec<i32>); 5] = [("SATISFIABLE", vec![1, -2, 3, -4, 5]), ("SATISFIABLE", vec![]), ("SATISFIABLE", vec![-2147483647, 2147483647]), ("UNSATISFIABLE", vec![]), ("UNKNOWN", vec![])];
+    // a comment line of a solver log is `c` followed by a blank (a bare `c` is an unknown line: the crate's own test treats it so)
+    let comment_fillers: [&[&str]; 4] = [&["c "], &["c comment"], &["c s UNSATISFIABLE", "c v 9 0"], &["c ", "c  ", "c x"]];
+    let unknown_fillers: [&[&str]; 7] = [&[""], &["o 5"], &["", ""], &["random text"], &["c x", "", "o 1"], &["   "], &["c"]];
+    let mut r = Rng::new(seed);
+    let rounds = if tier == "thorough" { 4000 } else { 400 };
+    let mut one = |rep: &mut Report, f: &Fmt, status: &str, lits: &[i32], split: usize, filler: &[&str], mask: u32, eol: &str, final_eol: bool, sep: &str| {
+        let t = render_log(status, lits, split, filler, mask, eol, final_eol, sep);
+        let want = format!(
+            "{:?} {:?}",
+            match status {
+                "SATISFIABLE" => Some(true),
+                "UNSATISFIABLE" => Some(false),
+                _ => None,
+            },
+            lits
+        );
+        rep.inputs += 1;
+        rep.nontrivial += 1;
+        for &sc in scheds.iter() {
+            let o = run(f, &t, sc);
+            rep.runs += 1;
+            if o.end != End::Clean || o.items != vec![want.clone()] {
+                let mut a = vec![s("log"), hex(&t), f.name.to_string()];
+                a.extend(sc.args());
+                rep.fail("C07 a solver log yields the same status and assignment for every placement of comment and ignored lines", show(&t), a, format!("expected {} and a clean end, got {:?} {:?}", want, o.items, o.end));
+            }
+        }
+    };
+    for (status, lits) in cases.iter() {
+        // systematically: every split, every single insertion point, each filler
+        for split in 0..=3usize {
+            for pos in 0..8u32 {
+                for f in comment_fillers.iter() {
+                    one(&mut rep, strict, status, lits, split, f, 1 << pos, "\n", true, " ");
+                    one(&mut rep, ign, status, lits, split, f, 1 << pos, "\n", true, " ");
+                }
+                for f in unknown_fillers.iter() {
+                    one(&mut rep, ign, status, lits, split, f, 1 << pos, "\n", true, " ");
+                }
+            }
+            one(&mut rep, strict, status, lits, split, &[], 0, "\r\n", true, " ");
+            one(&mut rep, strict, status, lits, split, &[], 0, "\n", false, " ");
+        }
+        for _ in 0..rounds / 5 {
+            let split = r.below(5);
+            let mask = r.next() as u32 & 0xff;
+            let eol = ["\n", "\r\n"][r.below(2)];
+            let fin = r.below(4) != 0;
+            let sep = " "; // the property promises nothing about the blanks inside status and value lines
+            one(&mut rep, strict, status, lits, split, comment_fillers[r.below(4)], mask, eol, fin, sep);
+            one(&mut rep, ign, status, lits, split, unknown_fillers[r.below(7)], mask, eol, fin, sep);
+        }
+    }
+    rep.bound = format!("satlog: 5 logs (three statuses, empty and extreme assignments) x value lines broken after 1/2/3/all literals x comment lines (strict and ignoring mode) and unknown / blank lines (ignoring mode) at every single line boundary, CRLF, no final newline, plus {} seeded combinations; 3 read schedules", rounds);
+    rep
+}
+
 fn set_number(d: &mut Doc, pos: usize, num: &str) {
     let mut k = 0;
     if let Some(h) = d.header.as_mut() {
@@ -424,7 +525,19 @@ fn set_number(d: &mut Doc, pos: usize, num: &str) {
         }
     }
 }
+pub fn replay_log(args: &[String]) -> i32 {
+    let t = unhex(&args[1]);
+    let f = FORMATS.iter().find(|f| f.name == args[2]).unwrap();
+    let sc = Sched::from_args(&args[3..]);
+    let o = run(f, &t, sc);
+    println!("log {:?} under {:?}: {:?} {:?}", show(&t), sc, o.items, o.end);
+    println!("FAILS if this differs from the status and assignment written in the log (see the recorded detail)");
+    1
+}
 pub fn replay(kind: &'static str, prop: &str, args: &[String]) -> i32 {
+    if args[0] == "log" {
+        return replay_log(args);
+    }
     // the recorded arguments identify the generated case; the simplest faithful replay re-runs the sub-suite and looks for the same case
     let tier = if args[0] == "c07" { args[4].clone() } else { "quick".to_string() };
     let seed: u64 = if args[0] == "c07" { args[3].parse().unwrap() } else { 1 };
